@@ -50,6 +50,9 @@ package constraint
 //@ contract iface Field.ToBigInt
 //@   pure
 //@   ensures result != nil && fresh(result) && allocated(result) && ofInt(*result) == arg0 && 0 <= *result && *result < fieldP()
+//@ contract iface ConstraintSystemGeneric.FieldBitLen
+//@   pure
+//@   ensures result == fieldBits()
 //@ contract iface Field.String
 //@   pure
 //@ contract iface Element.IsZero
